@@ -709,12 +709,30 @@ def snap_diff(s0, s1):
 def load(shim=True, wire=False):
     """fresh import of /repo + C-boundary shims (optional) + environment + kernel ghost (wire=True: the ghost sits behind the netlink socket,
     the real xfrm.py / netlink.py request builders and error handling run)"""
+    global _DEFAULT
     mods = common.load_repo(shim=shim)
     install_env(mods)
     SWITCH.install(mods['xfrm'], wire=wire)
     if wire:
         wire_env(mods)
+    _DEFAULT = (mods, wire)
     return mods
+
+
+_DEFAULT = None
+
+
+def reset_between_instances():
+    """instances share worker processes: whatever one of them switched (kernel model level, axioms of the uninterpreted functions) is put back to
+    the check's default before the next one starts"""
+    from symx import shims
+    shims.HMAC_UF.injective = False
+    shims.HMAC_UF.link_concrete = False
+    if _DEFAULT is not None:
+        mods, wire = _DEFAULT
+        SWITCH.install(mods['xfrm'], wire=wire)
+        if wire:
+            wire_env(mods)
 
 
 def wire_env(mods):
